@@ -22,6 +22,10 @@ open CalmVerif.Props.C13
 #print axioms shifted_comments_are_source_comments
 #print axioms comments_faithful
 #print axioms comments_in_source_order_partial
+#print axioms shifted_ordered
+#print axioms comments_in_source_order
+#print axioms attached_comment_offsets_increasing
+#print axioms comments_faithful_ordered
 #print axioms line_comment_followed_by_newline
 #print axioms comment_carriers_print_comments_partial
 #print axioms case_block_drops_comments
@@ -49,6 +53,10 @@ open CalmVerif.Props.C13
 #check @shifted_comments_are_source_comments
 #check @comments_faithful
 #check @comments_in_source_order_partial
+#check @shifted_ordered
+#check @comments_in_source_order
+#check @attached_comment_offsets_increasing
+#check @comments_faithful_ordered
 #check @line_comment_followed_by_newline
 #check @comment_carriers_print_comments_partial
 #check @case_block_drops_comments
